@@ -831,7 +831,7 @@ inline Plan gen_plan(uint64_t seed, uint64_t index, Tier tier, int profile, int 
     int type = (int)r.below(ntypes); // 0 dyn, 1 fix4, 2 fix6, 3 fix8
     static const int limits[] = {12, 4, 6, 8};
     int max_nc = limits[type];
-    static const std::vector<int> sizes = {1, 2, 3, 5, 31, 32, 33, 40};
+    static const std::vector<int> sizes = {1, 2, 3, 5, 31, 32, 33, 40, 64, 127, 128, 129, 200};
     auto pick_S = [&]() { return r.chance(0.6) ? (int)r.range(1, 6) : sizes[r.below(sizes.size())]; };
     auto pick_nc = [&]() {
         if (type == 0 && r.chance(0.5)) return (int)r.range(7, 10); // straddle the static table limit of 8
